@@ -117,19 +117,17 @@ theorem c14_shutdown_clears_started (env : Env) (hst : ∀ tr, env.cond tr "not 
     then each plugin's `shutdown`), the step is *called* in every iteration j, for every fault placement of either
     class — a step that fails never skips a later one. -/
 theorem c14_steps_isolated :
-    ∃ body site, findLoop "steps" deepShutdown = some body ∧ firstCall body = some site ∧
-      ∀ env, FaultsIn RaiseSet.all env → ∀ tr, ∃ tr', exec env (.loop "steps" body) tr = (.normal, tr') ∧
-        (∀ j, j < env.iters tr "steps" → ∃ f, Adjacent (Ev.call site f) (Ev.iter "steps" j) tr') :=
-  isoCallLoopIn_spec RaiseSet.all "steps" deepShutdown (by decide)
+    ∃ id body site, lastLoop deepShutdown = some (id, body) ∧ firstCall body = some site ∧
+      ∀ env, FaultsIn RaiseSet.all env → ∀ tr, ∃ tr', exec env (.loop id body) tr = (.normal, tr') ∧
+        (∀ j, j < env.iters tr id → ∃ f, Adjacent (Ev.call site f) (Ev.iter id j) tr') :=
+  isoCallLastLoop_spec RaiseSet.all deepShutdown (by decide)
 
 /-- **flush drains**: every pending future is waited for, whatever the earlier ones raised (either class). -/
 theorem c14_flush_isolated :
-    ∃ body site, findLoop "list(self._pending.values())" taskFlush = some body ∧ firstCall body = some site ∧
-      ∀ env, FaultsIn RaiseSet.all env → ∀ tr, ∃ tr',
-        exec env (.loop "list(self._pending.values())" body) tr = (.normal, tr') ∧
-        (∀ j, j < env.iters tr "list(self._pending.values())" →
-          ∃ f, Adjacent (Ev.call site f) (Ev.iter "list(self._pending.values())" j) tr') :=
-  isoCallLoopIn_spec RaiseSet.all "list(self._pending.values())" taskFlush (by decide)
+    ∃ id body site, lastLoop taskFlush = some (id, body) ∧ firstCall body = some site ∧
+      ∀ env, FaultsIn RaiseSet.all env → ∀ tr, ∃ tr', exec env (.loop id body) tr = (.normal, tr') ∧
+        (∀ j, j < env.iters tr id → ∃ f, Adjacent (Ev.call site f) (Ev.iter id j) tr') :=
+  isoCallLastLoop_spec RaiseSet.all taskFlush (by decide)
 
 /-- **a start that fails can be retried**: `started = True` is the last thing `Deep.start` does, so when any step
     of it raises (or it returns early) the flag has not been set by this call. -/
